@@ -27,17 +27,22 @@ META = dict(
 
 
 def run(ctx):
-    names = ['fcc', 'sq2d', 'hcp'] if ctx.quick else ['fcc', 'bcc', 'sc', 'hcp', 'sq2d', 'tri2d', 'honey2d', 'twoW', 'oblique2d', 'rumpled', 'rect2d-2site']
+    names = ['fcc', 'sq2d', 'hcp', 'twoW', 'oblique2d', 'rect2d-2site'] if ctx.quick else ['fcc', 'bcc', 'sc', 'hcp', 'sq2d', 'tri2d', 'honey2d', 'twoW', 'oblique2d', 'rumpled', 'rect2d-2site']
     scales = [1e-3, 1.0, 1e3, 1e6, 1e10, 1e16] if ctx.quick else [10.0 ** k for k in range(-3, 17)]
     for name in names:
         calc = vc.calculator(name, 1)
-        for t in range(1 if ctx.quick else 3):
+        for t in range(2 if ctx.quick else 4):
             d = vc.rand_data(ctx.rng, calc)
             limit = None
+            # every exchange class scaled together, or one class only (exchange classes many decades apart)
+            one = ctx.rng.randrange(len(d['preT2'])) if (len(d['preT2']) > 1 and t % 2 == 1) else None
             for s in scales:
-                d2 = dict(d); d2['preT2'] = d['preT2'] * s
+                d2 = dict(d)
+                if one is None: d2['preT2'] = d['preT2'] * s
+                else:
+                    f = np.ones(len(d['preT2'])); f[one] = s; d2['preT2'] = d['preT2'] * f
                 bf = calc.preene2betafree(1.0, **d2)
-                rep = dict(calculator=name, data=vc.jsonable(d), omega2_scale=s)
+                rep = dict(calculator=name, data=vc.jsonable(d), omega2_scale=s, scaled_class=one)
                 try:
                     Ldef = calc.Lij(*bf)
                     Llarge = calc.Lij(*bf, large_om2=0)
@@ -45,7 +50,7 @@ def run(ctx):
                 except Exception as e:
                     ctx.violation('om2-raises:%s' % type(e).__name__, 'Lij raised %r at omega2 scale %g on %s' % (e, s, name), rep); break
                 sc = max(np.abs(Ldef[0]).max(), np.abs(Ldef[1]).max(), 1e-300)
-                ctx.case((name, t, s, str(d['eneT2'])), nontrivial=True,
+                ctx.case((name, t, s, one, str(d['eneT2'])), nontrivial=True,
                          sample=dict(calculator=name, scale=s, Lss=np.asarray(Ldef[1]).tolist()))
                 ctx.count('scale:1e%d' % int(round(np.log10(s))))
                 for k, lab in enumerate(('L0vv', 'Lss', 'Lsv', 'L1vv')):
@@ -65,13 +70,16 @@ def run(ctx):
                 # smooth approach to the limit: beyond 1e8 the distance to the large-rate limit (the value at 1e11, where
                 # both algorithms agree) is the physical O(1/scale) term plus floating-point cancellation, which the code
                 # keeps two decades below eps*scale; anything larger is a jump, not a smooth approach
-                if s >= 1e8:
+                if s >= 1e6:
                     if limit is None:
-                        d3 = dict(d); d3['preT2'] = d['preT2'] * 1e11
+                        d3 = dict(d)
+                        if one is None: d3['preT2'] = d['preT2'] * 1e11
+                        else:
+                            f = np.ones(len(d['preT2'])); f[one] = 1e11; d3['preT2'] = d['preT2'] * f
                         limit = calc.Lij(*calc.preene2betafree(1.0, **d3))
                     for k, lab in enumerate(('L0vv', 'Lss', 'Lsv', 'L1vv')):
                         lim = np.asarray(limit[k]); scl = max(np.abs(lim).max(), sc)
-                        tolrel = 1e-4 + 1e-18 * s + 100.0 / s   # 0.01% plotting-precision floor
+                        tolrel = 1e-4 + 1e-18 * s + 1e3 / s   # 0.01% plotting-precision floor; physical O(1/scale) approach
                         dev = np.abs(np.asarray(Ldef[k]) - lim).max()
                         if dev > tolrel * scl:
                             ctx.violation('om2-not-smooth:%s:%s' % (lab, 'ge1e13' if s >= 1e13 else 'lt1e13'), '%s is %.3g away from the large-rate limit at omega2 scale %g on %s '
